@@ -41,6 +41,9 @@ def run(ctx, rep):
     from . import sib
     sib.m4(F, rep, "P7")
     sib.resets(F, rep, "P9")
+    from . import c02 as _c02, c04 as _c04
+    _c02.m10(F, rep, "P10")
+    _c04.rejections_rule(ctx, rep, "P11")
 
 
 def _written_values(F, wb, t):
